@@ -7,6 +7,24 @@ HERE = os.path.dirname(os.path.dirname(os.path.abspath(__file__)))
 PY = "PYTHONPATH=/repo PYTHONHASHSEED=0 /venv/bin/python run.py"
 
 CHECKS = {
+    "C13": dict(
+        text="Greedy.tla defines Plan(kind, instance) (stable sort by the policy key, first fit over strategies x pools) and NoInversion; TLC proves NoInversion(Plan) for every instance of a small bound (each instance an initial state); the same instances and larger random ones are built as real tasks / single-worker pools and given to the real EDF/FIFO/LSF schedulers, whose answers TLC judges with NoInversion (and compares with Plan).",
+        design_ref="DESIGN.md §5 C13",
+        note="trusted: TLC, instance encoding; gating bound = single-worker pools as the property's observation note says; multi-worker pools explored in thorough, notes only",
+        technique="TLA+ algorithm spec (Greedy.tla) model-checked over all small instances + call-record validation of the real greedy policies",
+    ),
+    "C16": dict(
+        text="ErdosTime.tla: 16 laws (eq/order/hash/add/sub/mul/to agree with microsecond integers, coarsening refused) checked by TLC on a grid of counts x units, with a limb encoding (itself model-checked against native integers) for magnitudes up to 2^53; every grid case is replayed on the real EventTime and ~10k big-magnitude call records are judged by TLC. EventQueue.tla: Add/Remove/Retime/Pop/Peek/NextOfType state machine (Pop returns an EvLess-minimal element) model-checked and its state graph replayed on the real EventQueue.",
+        design_ref="DESIGN.md §5 C16",
+        note="trusted: TLC, limb encoding (checked), dot-dump parser; values beyond 2^53 us are reported in notes only (outside the property's bound)",
+        technique="TLA+ specs (ErdosTime, EventQueue) model-checked with TLC + spec->code replay and call-record validation",
+    ),
+    "C18": dict(
+        text="TaskGraph.get_schedulable_tasks is transcribed in Simulator.tla (Schedulable: estimate propagation, topological selection, lookahead / retract / release_taskgraphs); contract clauses (no starvation, no dead task, scheduled only with retract, parents done without plan-ahead, monotone in lookahead and release_taskgraphs) are model-checked on every state of SimMC for lookaheads 0..2; every real call in recorded simulations, plus probes with larger lookahead / release_taskgraphs on the same state, must satisfy the clauses and (when no random branch prediction is involved) equal the transcription; release-on-completion is the TASK_FINISHED handler equality (NotifyCompletion).",
+        design_ref="DESIGN.md §5 C18",
+        note="trusted: TLC, tracer projection; branch-prediction policies other than ALL are only checked relationally; preemption not modelled",
+        technique="TLA+ transcription of the frontier (Simulator.tla Schedulable) model-checked in SimMC + trace validation of real get_schedulable_tasks calls",
+    ),
     "C01": dict(
         text='Invariants C01_NoOversub / C01_LedgerAgrees / C01_SingleWorker are model-checked on SimMC (hostile policy naming full pools, all instants) and evaluated by TLC in every state of every recorded trace of the real simulator; the logged per-instance availability and occupants must equal what the handler operators compute (Worker place/remove first-fit semantics from LedgerOps).',
         design_ref='DESIGN.md §5 C01',
